@@ -33,6 +33,12 @@ impl Mode {
 }
 
 pub fn mem_lens(mode: Mode, tier: Tier) -> (Vec<usize>, usize) {
+    if let Some(d) = std::env::var("VERIF_MEM_DENSE").ok().and_then(|s| s.parse::<usize>().ok()) {
+        let mut l: Vec<usize> = (1..=d).collect();
+        let pool = lens::thin(&lens::pool(d, 1 << 13), 16);
+        l.extend(pool.iter().map(|x| x.0));
+        return (l, d);
+    }
     let dense_n = tier.pick(256, 1024);
     let mut l: Vec<usize> = (1..=dense_n).collect();
     let hi = match mode {
@@ -49,8 +55,9 @@ fn key_from_fields(f: &[i64]) -> String {
     let mode = if f[0] == 15 { "C15" } else { "C03" };
     let pk = PK::ALL.get(f[1].max(0) as usize).map(|p| p.name()).unwrap_or("?");
     let e = if f[5] < 0 { "plan".to_string() } else { Entry::ALL.get(f[5] as usize).map(|e| e.name().to_string()).unwrap_or("?".into()) };
+    let mask = if f.len() > 11 && f[11] >= 0 { format!("|maskbits={}", f[11]) } else { String::new() };
     format!(
-        "{}|pk={}|T=f{}|dir={}|n={}|entry={}|data={}|out={}|scratch={}|place={}",
+        "{}|pk={}|T=f{}|dir={}|n={}|entry={}|data={}|out={}|scratch={}|place={}{}",
         mode,
         pk,
         f[2],
@@ -60,7 +67,8 @@ fn key_from_fields(f: &[i64]) -> String {
         f[6],
         f[7],
         f[8],
-        if f[9] == 0 { "end" } else { "start" }
+        if f[9] == 0 { "end" } else { "start" },
+        mask
     )
 }
 fn fields_from_key(key: &str) -> Option<[i64; NFIELDS]> {
@@ -79,11 +87,14 @@ fn fields_from_key(key: &str) -> Option<[i64; NFIELDS]> {
     f[7] = m.get("out")?.parse().ok()?;
     f[8] = m.get("scratch")?.parse().ok()?;
     f[9] = if m.get("place")? == "end" { 0 } else { 1 };
+    if let Some(mb) = m.get("maskbits").and_then(|s| s.parse::<i64>().ok()) {
+        f[11] = mb;
+    }
     Some(f)
 }
 
 thread_local! {
-    static LAST_PANIC: RefCell<Option<(String, u32, String)>> = RefCell::new(None);
+    pub static LAST_PANIC: RefCell<Option<(String, u32, String)>> = RefCell::new(None);
 }
 
 fn shapes(mode: Mode, n: usize, e: Entry, adv: usize, kmax: usize) -> Vec<(usize, usize, usize)> {
@@ -169,6 +180,7 @@ impl Worker {
                 f[3] = di as i64;
                 f[4] = n as i64;
                 f[10] = self.counter;
+                f[11] = std::env::var("VERIF_FEATURE_MASK").ok().and_then(|s| s.parse::<i64>().ok()).unwrap_or(-1);
                 mem::set_current(&f);
                 let fft = match plan_catch(&mut pl, n, *d) {
                     Ok(x) => x,
@@ -288,21 +300,11 @@ pub fn worker_main(args: &[String]) -> i32 {
     } else {
         None
     };
+    if let Some(m) = std::env::var("VERIF_FEATURE_MASK").ok().and_then(|s| s.parse::<u32>().ok()) {
+        rustfft::verif_hooks::set_feature_mask(m);
+    }
     mem::install_fatal_handlers();
-    std::panic::set_hook(Box::new(|info| {
-        let (file, line) = info.location().map(|l| (l.file().to_string(), l.line())).unwrap_or_default();
-        let msg = if let Some(s) = info.payload().downcast_ref::<&str>() {
-            s.to_string()
-        } else if let Some(s) = info.payload().downcast_ref::<String>() {
-            s.clone()
-        } else {
-            String::new()
-        };
-        if file.starts_with("src/") {
-            eprintln!("MACHINERY-ERROR: harness panic at {}:{}: {}", file, line, msg);
-        }
-        LAST_PANIC.with(|p| *p.borrow_mut() = Some((file, line, msg)));
-    }));
+    install_worker_panic_hook();
     let (lens_, dense_n) = mem_lens(mode, tier);
     let my: Vec<usize> = match &single {
         Some(s) => vec![s[4] as usize],
@@ -326,26 +328,34 @@ pub fn worker_main(args: &[String]) -> i32 {
     0
 }
 
-struct StripeOut {
-    evaluations: u64,
-    nontrivial: u64,
-    states: u64,
-    viols: Vec<(String, String)>,
-    crashes: Vec<(String, i64)>,
-    machinery: Vec<String>,
-    restarts: u32,
+pub struct StripeOut {
+    pub evaluations: u64,
+    pub nontrivial: u64,
+    pub states: u64,
+    pub viols: Vec<(String, String)>,
+    pub crashes: Vec<(String, i64)>,
+    pub machinery: Vec<String>,
+    pub restarts: u32,
+    pub info: Vec<String>,
 }
 
 fn run_stripe(mode: Mode, tier: Tier, stripe: usize, nstripes: usize, single: Option<[i64; NFIELDS]>) -> StripeOut {
+    run_stripe_generic("memworker", mode.name(), tier, stripe, nstripes, single, &key_from_fields)
+}
+
+pub fn run_stripe_generic(worker_cmd: &str, mode_name: &str, tier: Tier, stripe: usize, nstripes: usize, single: Option<[i64; NFIELDS]>, keyfn: &dyn Fn(&[i64]) -> String) -> StripeOut {
     let exe = std::env::current_exe().expect("current_exe");
-    let mut out = StripeOut { evaluations: 0, nontrivial: 0, states: 0, viols: vec![], crashes: vec![], machinery: vec![], restarts: 0 };
+    let mut out = StripeOut { evaluations: 0, nontrivial: 0, states: 0, viols: vec![], crashes: vec![], machinery: vec![], restarts: 0, info: vec![] };
     let mut skip: i64 = 0;
     loop {
         let mut cmd = Command::new(&exe);
-        cmd.arg("memworker").arg(mode.name()).arg(tier.name()).arg(stripe.to_string()).arg(nstripes.to_string()).arg(skip.to_string());
+        cmd.arg(worker_cmd).arg(mode_name).arg(tier.name()).arg(stripe.to_string()).arg(nstripes.to_string()).arg(skip.to_string());
         if let Some(s) = &single {
             for f in s.iter() {
                 cmd.arg(f.to_string());
+            }
+            if s[11] >= 0 {
+                cmd.env("VERIF_FEATURE_MASK", s[11].to_string());
             }
         }
         cmd.stdout(Stdio::piped()).stderr(Stdio::piped());
@@ -379,6 +389,10 @@ fn run_stripe(mode: Mode, tier: Tier, stripe: usize, nstripes: usize, single: Op
                 if nums.len() == NFIELDS + 1 {
                     crashed = Some((nums[1..].to_vec(), nums[0]));
                 }
+            } else if let Some(rest) = line.strip_prefix("INFO\t") {
+                if out.info.len() < 200 {
+                    out.info.push(rest.to_string());
+                }
             } else if let Some(rest) = line.strip_prefix("STAT ") {
                 got_stat = true;
                 for tok in rest.split_whitespace() {
@@ -398,7 +412,7 @@ fn run_stripe(mode: Mode, tier: Tier, stripe: usize, nstripes: usize, single: Op
         out.machinery.extend(errh.join().unwrap_or_default());
         match crashed {
             Some((fields, sig)) => {
-                let key = key_from_fields(&fields);
+                let key = keyfn(&fields);
                 out.crashes.push((key, sig));
                 // resume after the crashing case
                 skip = fields[10].max(skip + 1);
@@ -499,4 +513,22 @@ pub fn dir_of(i: i64) -> FftDirection {
     } else {
         FftDirection::Inverse
     }
+}
+
+/// panic hook of worker processes: remember where the last panic came from, shout if it is the harness's own
+pub fn install_worker_panic_hook() {
+    std::panic::set_hook(Box::new(|info| {
+        let (file, line) = info.location().map(|l| (l.file().to_string(), l.line())).unwrap_or_default();
+        let msg = if let Some(s) = info.payload().downcast_ref::<&str>() {
+            s.to_string()
+        } else if let Some(s) = info.payload().downcast_ref::<String>() {
+            s.clone()
+        } else {
+            String::new()
+        };
+        if file.starts_with("src/") {
+            eprintln!("MACHINERY-ERROR: harness panic at {}:{}: {}", file, line, msg);
+        }
+        LAST_PANIC.with(|p| *p.borrow_mut() = Some((file, line, msg)));
+    }));
 }
